@@ -36,8 +36,12 @@ EXPRS["dot-k4"] = EXPRS["dot"]
 # four output coordinates revisited three times (reduction rank outermost): a visit can insert several new
 # coordinates below an existing one, reach it, append another one - and be followed by one more visit
 EXPRS["matvec-m4k3"] = EXPRS["matvec"]
+# operands built without a declared shape (rank extents estimated from the fibers appended to them)
+EXPRS["matvec-k3-est"] = EXPRS["matvec"]
+EXPRS["matmul-est"] = EXPRS["matmul"]
+EST = {"matvec-k3-est", "matmul-est"}
 WIDE = {"matvec-m3": {"m": 3, "k": 2}, "colsum-n3": {"m": 2, "n": 3}, "matvec-k3": {"m": 2, "k": 3},
-        "rowsum-k3": {"m": 2, "k": 3}, "dot-k4": {"k": 4}, "matvec-m4k3": {"m": 4, "k": 3}}
+        "rowsum-k3": {"m": 2, "k": 3}, "dot-k4": {"k": 4}, "matvec-m4k3": {"m": 4, "k": 3}, "matvec-k3-est": {"m": 2, "k": 3}}
 
 
 def shapes_for(name):
@@ -62,7 +66,7 @@ def case_kernel(case):
         feats.add("empty_operand")
     res = []
     try:
-        tensors = make_inputs(ins, nests, shapes)
+        tensors = make_inputs(ins, nests, shapes, declared=name not in EST)
         k = Kernel(out, ins, order, dict(tiles), style, inner_after)
         k.run(tensors)
         got = k.zcontent()
@@ -263,6 +267,7 @@ def run(ctx):
         plan.append(("colsum-n3", (-1, 0, 1), 0, (False,)))
         plan.append(("matvec-k3", (0, 1), 1, (False,)))
         plan.append(("matvec-m4k3", (0, 1), 0, (False,)))
+        plan.append(("matvec-k3-est", (0, 1), 1, (False,)))
     else:
         small = ("dot", "elem", "rowsum", "sumall", "colsum", "outer")
         plan = [(n, (-1, 0, 1, 2), 2, (False, True)) for n in small]
@@ -271,7 +276,8 @@ def run(ctx):
                  ("matmul", (0, 1, 2), 1, (False,)), ("matmul-scale", (0, 1), 1, (False, True)),
                  ("matvec-m3", (-1, 0, 1, 2), 1, (False,)), ("colsum-n3", (-1, 0, 1, 2), 1, (False,)),
                  ("sum3", (0, 1), 2, (False, True)), ("ttv", (0, 1), 2, (False,)),
-                 ("matvec-k3", (0, 1, 2), 2, (False, True)), ("matvec-m4k3", (0, 1), 1, (False,))]
+                 ("matvec-k3", (0, 1, 2), 2, (False, True)), ("matvec-m4k3", (0, 1), 1, (False,)),
+                 ("matvec-k3-est", (0, 1, 2), 2, (False, True)), ("matmul-est", (0, 1), 1, (False,))]
     ctx.bounds = {"plan": [dict(expr=n, entries=list(a), tile_mode=t, inner_tile_loop_directly_below=list(p))
                            for n, a, t, p in plan],
                   "tile_mode": "0 = untiled, 1 = every tile size of every single variable, 2 = also every pair of variables"}
